@@ -199,6 +199,24 @@ inline mj::Value project(JsonVariantConst v, int depth) {
       if (!(v == p)) setBad(out, "string != its own bytes (char* operand)");
     }
     if (v == bytes + "x" || v == std::string("\x01")) setBad(out, "string equal to different bytes");
+    // ordering must not depend on the KIND of the operand that carries the other text (bytes >= 0x80 included)
+    for (const char* probe : {"a", "\x80", "A\xC3\xA9", "42", "\xff\x01"}) {
+      std::string ps(probe);
+      bool lt = v < ps, gt = v > ps, le = v <= ps, ge = v >= ps;
+      JsonString pj(ps.data(), ps.size());
+      std::string_view pv(ps);
+      std::vector<char> pb(ps.begin(), ps.end());
+      pb.push_back(0);
+      char* pp = pb.data();
+      JsonDocument other;
+      other.set(ps);
+      JsonVariantConst ov = other.as<JsonVariantConst>();
+      if ((v < probe) != lt || (v < pj) != lt || (v < pv) != lt || (v < pp) != lt || (v < ov) != lt ||
+          (v > probe) != gt || (v > pj) != gt || (v > pv) != gt || (v > pp) != gt || (v > ov) != gt ||
+          (v <= probe) != le || (v <= pj) != le || (v <= ov) != le || (v >= probe) != ge || (v >= pj) != ge || (v >= ov) != ge ||
+          (probe > v) != lt || (ps > v) != lt || (pj > v) != lt || (ov > v) != lt)
+        setBad(out, "ordering against a string depends on the kind of the operand");
+    }
     if (v.is<int>() || v.is<double>() || v.is<bool>()) setBad(out, "string answers to a numeric kind");
   }
   bool isI = v.is<long long>(), isU = v.is<unsigned long long>();
